@@ -2,6 +2,7 @@ import PromModel.Tsdb.Merge
 import PromProofs.GoHeap
 import PromProofs.Merge
 import PromProofs.MergeTotal
+import PromProofs.MergeSeek
 /-
   C19 — Merging series sets de-duplicates without losing data.
   Property theorems only; helper lemmas live in PromProofs/GoHeap.lean and PromProofs/Merge.lean.
@@ -153,7 +154,7 @@ theorem chain_drops_minint64_witness :
 theorem chain_zero_iterators_panics_witness : ((Chain.mk' []).next).2 = .panic := by
   decide
 
-/-! ### stated, not proved (the correspondence suite and the judge cover them) -/
+/-! ### Seek scripts, the merged series set, chunk mergers -/
 
 /-- expected result of any Next/Seek script on a merged sequence `U` of timestamps -/
 def chain_seek_spec_full : Prop :=
@@ -168,6 +169,20 @@ def chain_seek_spec_full : Prop :=
       (i', acc.2 ++ [r.map (·.t)]))
       (It.ofList 0 (((inputs.flatten.map (·.t)).mergeSort (· ≤ ·)).eraseDups.map fun t => ⟨t, .float, 0⟩), [])
     run.2 = spec.2
+
+/-- `chain_seek_spec_full` holds — for EVERY script (also backward seeks, seeks before the first
+    `Next`, calls after the end): the chain answers as the list iterator over the sorted de-duplicated
+    union of the inputs' timestamps (simulation `Prom.Merge.Sim`, PromProofs/MergeSeek.lean). -/
+theorem chain_seek_spec : chain_seek_spec_full := by
+  intro inputs hin script
+  exact script_sim script _ _ [] (sim_init inputs hin)
+
+/-- instance: Seek 2 lands on 2 (second input), Next gives 3, Seek 1 (backwards) stays on 3, Next ends -/
+example : ([some 2, none, some 1, none, none].foldl (fun (acc : Chain × List (Option Int)) op =>
+      let (c', r) := match op with | some t => acc.1.seek t | none => acc.1.next
+      (c', acc.2 ++ [match r with | .val s => some s.t | _ => none]))
+      (Chain.ofLists ([[⟨1, .float, 10⟩, ⟨3, .float, 11⟩], [⟨1, .float, 20⟩, ⟨2, .hist, 6⟩]].map fun l => (l, false)), [])).2
+    = [some 2, some 3, some 3, none, none] := by decide
 
 /-- merged series set: label sets strictly increasing and equal to the union of the inputs' label sets -/
 def merge_sets_sorted_unique_full : Prop :=
